@@ -689,6 +689,63 @@ pub fn unary_and_powers() -> Vec<Snip06> {
             }
         }
     }
+    // (d) FOR headers whose start, limit or step has a fraction (no tie): each is converted to the counter's type
+    // once, when the loop is entered (a limit of 1.75 is 2, of 3.25 is 3), with and without STEP, as a literal,
+    // a CONST, in parentheses and in a variable of another type
+    for counter in [Ty::Int, Ty::Long] {
+        for (from, to, step) in [("1", "1.75", ""), ("1", "3.25", ""), ("1", "3.75", "1"), ("1.75", "4", ""), ("1", "4.25", "1.75"), ("4", "1.25", "-1"), ("4", "-.75", "-1.75"), ("-2.75", "-.75", "")] {
+            for form in 0..4 {
+                let mut b = B::new();
+                let k = tv("K", counter);
+                let mut stmts = vec![];
+                let lit = |t: &str| -> Expr { if let Some(r) = t.strip_prefix('-') { Expr::Neg(Box::new(Expr::Num(r.to_string()))) } else { Expr::Num(t.to_string()) } };
+                let mut operand = |b: &mut B, stmts: &mut Vec<Stmt>, t: &str, name: &str| -> Expr {
+                    if !t.contains('.') {
+                        return lit(t);
+                    }
+                    match form {
+                        0 => lit(t),
+                        1 => Expr::Paren(Box::new(lit(t))),
+                        2 => {
+                            stmts.push(b.assign(tv(name, Ty::Double), lit(t)));
+                            tv(name, Ty::Double)
+                        }
+                        _ => {
+                            stmts.push(b.assign(tv(name, Ty::Single), lit(t)));
+                            bin(BinOp::Add, tv(name, Ty::Single), num(0))
+                        }
+                    }
+                };
+                let f = operand(&mut b, &mut stmts, from, "FA");
+                let t = operand(&mut b, &mut stmts, to, "FB");
+                let st_e = if step.is_empty() { None } else { Some(operand(&mut b, &mut stmts, step, "FC")) };
+                let body = vec![b.print(vec![st("body"), k.clone()])];
+                stmts.push(b.s(K::For { var: k.clone(), from: f, to: t, step: st_e, body, next_var: false }));
+                stmts.push(b.print(vec![st("after"), k]));
+                push(&mut out, stmts, format!("FOR with a {:?} counter from {} to {} step {} (fractions converted once at loop entry) form{}", counter, from, to, if step.is_empty() { "none" } else { step }, form), true);
+            }
+        }
+    }
+    // (e) FOR headers that mention the counter itself: start, limit and step are all evaluated before the counter
+    // is set (`I = 5: FOR I = 1 TO I + 5` runs ten times)
+    for counter in [Ty::Int, Ty::Single] {
+        for shape in 0..5 {
+            let mut b = B::new();
+            let k = tv("K", counter);
+            let mut stmts = vec![b.assign(k.clone(), num(5))];
+            let (from, to, step, what): (Expr, Expr, Option<Expr>, &str) = match shape {
+                0 => (num(1), bin(BinOp::Add, k.clone(), num(5)), None, "limit K + 5"),
+                1 => (num(1), num(12), Some(k.clone()), "step K"),
+                2 => (num(1), bin(BinOp::Mul, k.clone(), num(2)), Some(bin(BinOp::Sub, k.clone(), num(2))), "limit K * 2, step K - 2"),
+                3 => (bin(BinOp::Sub, k.clone(), num(3)), bin(BinOp::Add, k.clone(), num(1)), None, "start K - 3, limit K + 1"),
+                _ => (num(10), k.clone(), Some(Expr::Neg(Box::new(Expr::Paren(Box::new(bin(BinOp::Sub, k.clone(), num(3))))))), "start 10, limit K, step -(K - 3)"),
+            };
+            let body = vec![b.print(vec![st("body"), k.clone()])];
+            stmts.push(b.s(K::For { var: k.clone(), from, to, step, body, next_var: false }));
+            stmts.push(b.print(vec![st("after"), k]));
+            push(&mut out, stmts, format!("FOR with a {:?} counter K = 5 whose header mentions K: {}", counter, what), true);
+        }
+    }
     out
 }
 
